@@ -196,6 +196,14 @@ Definition fref_call_m (fc P a : ty) : option (ty * ty) :=
       Some (f, y')
     else None
   else None.
+(* function_ref(F&& f) requires is_invocable_r_v<R, remove_reference_t<F>&, Args...> (after a fix: commit; it used to ask for
+   F&&): the constraint asks exactly what the thunk does -- call *func, an lvalue of remove_reference_t<F>, const like the
+   argument.  q = the cv-ref qualifier of the callable's only operator() *)
+Definition fref_ctor_wf_m (q : pmfq) (a : ty) : bool :=
+  match perfect_fwd (mkty (cst a) RL) with Some o => pmf_callable q o | None => false end.
+(* the constraint before the repair: is_invocable_r_v<R, F&&, Args...>, the callable with the category of the ARGUMENT *)
+Definition fref_ctor_wf_old_m (q : pmfq) (a : ty) : bool :=
+  match perfect_fwd a with Some o => pmf_callable q o | None => false end.
 (* reference_wrapper<T>::operator()(Args&&... args) const: invoke(get(), etl::forward<Args>(args)...) *)
 Definition refwrap_call_m (tconst : bool) (a : ty) : option (ty * ty) :=
   do r <- invoke_fo_m (mkty tconst RL) [a];
@@ -430,8 +438,7 @@ Definition null_target_ctor (w : wref) (s : state) : out state :=
 (* inplace_function() / inplace_function(nullptr_t) *)
 Definition null_ctor (w : wref) (s : state) : out state :=
   match cells s (CW w) with Live _ _ => Bad OverLive | Dead => Good (set_vt s w None) end.
-(* inplace_function(inplace_function const& other) : _vtable{other._vtable} { _vtable->copy_ptr(&_storage, &other._storage); }
-   (the converting constructor from another capacity does the same) *)
+(* inplace_function(inplace_function const& other) : _vtable{other._vtable} { _vtable->copy_ptr(&_storage, &other._storage); } *)
 Definition copy_ctor (w other : wref) (s : state) : out state :=
   let v := vts s other in
   copy_thunk v (CW w) (CW other) (set_vt s w v).
@@ -439,6 +446,23 @@ Definition copy_ctor (w other : wref) (s : state) : out state :=
 Definition move_ctor (w other : wref) (s : state) : out state :=
   let v := vts s other in
   relocate_thunk v (CW w) (CW other) (set_vt (set_vt s other None) w v).
+(* the private constructor  inplace_function(vtable_ptr_t vtable, process_ptr_t process, storage_ptr_t storage)
+     : _vtable{vtable} { process(addressof(_storage), storage); }
+   through which both converting constructors (from an inplace_function of another capacity / alignment) go; [process] is
+   the copy or relocate thunk taken from the SOURCE's vtable before the body runs *)
+Definition private_ctor (w : wref) (v : option Z) (process : option Z -> cref -> cref -> state -> out state)
+    (storage : cref) (s : state) : out state :=
+  process v (CW w) storage (set_vt s w v).
+(* template <size_t Cap, size_t Align> inplace_function(inplace_function<R(Args...), Cap, Align> const& other)
+     : inplace_function{other._vtable, other._vtable->copy_ptr, addressof(other._storage)} *)
+Definition conv_copy_ctor (w other : wref) (s : state) : out state :=
+  private_ctor w (vts s other) copy_thunk (CW other) s.
+(* template <size_t Cap, size_t Align> inplace_function(inplace_function<R(Args...), Cap, Align>&& other)
+     : inplace_function{other._vtable, other._vtable->relocate_ptr, addressof(other._storage)}
+     { other._vtable = addressof(empty_vtable); }      -- the source is emptied AFTER the relocation *)
+Definition conv_move_ctor (w other : wref) (s : state) : out state :=
+  run s <- private_ctor w (vts s other) relocate_thunk (CW other) s;
+  Good (set_vt s other None).
 (* ~inplace_function() *)
 Definition dtor (w : wref) (s : state) : out state := destroy_thunk (vts s w) (CW w) s.
 (* end of life of a temporary wrapper / raw storage: whatever still lives in it is leaked *)
@@ -488,7 +512,12 @@ Inductive op :=
 | OCtorTarget (w : nat) (t : Z)      (* w.~F(); new (&w) F(target) *)
 | OCtorNull (w : nat)                (* w.~F(); new (&w) F(nullptr) / F() *)
 | OAssignNullFn (w : nat)            (* w = (R( * )(Args...)) nullptr    -- a null function pointer is not a target *)
-| OCtorNullFn (w : nat).             (* w.~F(); new (&w) F((R( * )(Args...)) nullptr) *)
+| OCtorNullFn (w : nat)              (* w.~F(); new (&w) F((R( * )(Args...)) nullptr) *)
+(* v a PERSISTENT wrapper of another (smaller) capacity: the converting constructors, w <> v by typing *)
+| OConvCopyCtorW (w v : nat)         (* w.~F(); new (&w) F(v)          -- F(inplace_function<Sig, Cap, Align> const&) *)
+| OConvMoveCtorW (w v : nat)         (* w.~F(); new (&w) F(move(v))    -- F(inplace_function<Sig, Cap, Align>&&)      *)
+| OConvCopyAssign (w v : nat)        (* w = v        -- the by-value parameter is built by the converting copy constructor *)
+| OConvMoveAssign (w v : nat).       (* w = move(v)  -- ... by the converting move constructor *)
 
 Inductive tok := TAck | TCall (r : Z) | TEmpty | TBool (b : bool) | TSkip.
 
@@ -498,6 +527,8 @@ Definition in_range (n : nat) (o : op) : bool :=
   | OAssignNullFn w | OCtorNullFn w =>
       Nat.ltb w n
   | OCopyAssign w v | OMoveAssign w v | OCopyCtor w v | OMoveCtor w v | OSwap w v => Nat.ltb w n && Nat.ltb v n
+  | OConvCopyCtorW w v | OConvMoveCtorW w v | OConvCopyAssign w v | OConvMoveAssign w v =>
+      Nat.ltb w n && Nat.ltb v n && negb (Nat.eqb w v)     (* objects of different types are different objects *)
   end.
 
 Definition step_m (stateless : list Z) (n : nat) (s : state) (o : op) : out (state * tok) :=
@@ -524,14 +555,14 @@ Definition step_m (stateless : list Z) (n : nat) (s : state) (o : op) : out (sta
   | OConvCopy w t =>
       run s <- closure_ctor WParam t s;
       run s <- dtor (WI w) s;
-      run s <- copy_ctor (WI w) WParam s;
+      run s <- conv_copy_ctor (WI w) WParam s;
       run s <- dtor WParam s;
       run s <- end_of_storage (CW WParam) s;
       Good (set_vt s WParam None, TAck)
   | OConvMove w t =>
       run s <- closure_ctor WParam t s;
       run s <- dtor (WI w) s;
-      run s <- move_ctor (WI w) WParam s;
+      run s <- conv_move_ctor (WI w) WParam s;
       run s <- dtor WParam s;
       run s <- end_of_storage (CW WParam) s;
       Good (s, TAck)
@@ -540,6 +571,10 @@ Definition step_m (stateless : list Z) (n : nat) (s : state) (o : op) : out (sta
   | OAssignNullFn w =>
       run s <- null_target_ctor WParam s; run s <- assign_body (WI w) s; Good (s, TAck)
   | OCtorNullFn w => run s <- dtor (WI w) s; run s <- null_target_ctor (WI w) s; Good (s, TAck)
+  | OConvCopyCtorW w v => run s <- dtor (WI w) s; run s <- conv_copy_ctor (WI w) (WI v) s; Good (s, TAck)
+  | OConvMoveCtorW w v => run s <- dtor (WI w) s; run s <- conv_move_ctor (WI w) (WI v) s; Good (s, TAck)
+  | OConvCopyAssign w v => run s <- conv_copy_ctor WParam (WI v) s; run s <- assign_body (WI w) s; Good (s, TAck)
+  | OConvMoveAssign w v => run s <- conv_move_ctor WParam (WI v) s; run s <- assign_body (WI w) s; Good (s, TAck)
   end.
 
 (* what the harness observes after every step *)
@@ -860,6 +895,17 @@ Definition elem_swappable (e : elem) : bool :=
 Definition pair_swappable_m (a b : elem) : bool :=
   (elem_swappable a && elem_swappable b)
   || (nth 2 (pair_traits_m a b) false && nth 4 (pair_traits_m a b) false).
+
+(** * is_swappable_v<tuple<Ts...>> *)
+(* tuple.hpp: swap(tuple<Ts...>&, tuple<Ts...>&) requires((is_swappable_v<Ts> and ...)) { lhs.swap(rhs); } (added by a fix:
+   commit; before it only the generic swap existed).  When it does not participate the generic swap template remains, which
+   needs the defaulted member-wise assignment of tuple_leaf<I, T>: deleted for a const or reference element *)
+Definition leaf_assignable (e : elem) : bool :=
+  match e with EInt | EMoveOnly | ECopyOnly => true | EConstInt | ELRef | EConstLRef | ERRef => false end.
+Definition tuple_swappable_m (es : list elem) : bool := forallb elem_swappable es || forallb leaf_assignable es.
+(* non-member swap on tuples of references exchanges the REFERENTS (value script of op tswapref): (a, b, c, d) -> (c, d, a, b),
+   by the member and by the non-member swap: twice = identity *)
+Definition tuple_swap_refs_m (a b c d : Z) : list Z := [c; d; a; b; a; b; c; d].
 
 (* function_ref and function pointers (op frefptr): function_ref(F* f) stores the pointer value, so (1) a later change of the
    pointer object is not seen: f(v) = v + 1; (2) a function_ref made from a pointer temporary still calls the function after
